@@ -309,6 +309,10 @@ func checkMain(args []string) int {
 		if params == nil {
 			continue
 		}
+		// development aid: VERIF_ONLY=<substring of the entry function> runs a subset (no evidence is written)
+		if only := os.Getenv("VERIF_ONLY"); only != "" && !strings.Contains(e.Func, only) {
+			continue
+		}
 		fn := P.findFunc(pkgPath(e.Pkg), e.Func)
 		if fn == nil {
 			fmt.Printf("CANNOT-RUN: entry %s.%s not found\n", e.Pkg, e.Func)
@@ -348,6 +352,10 @@ func checkMain(args []string) int {
 		}
 		for r, n := range res.AbortReasons {
 			problems = append(problems, fmt.Sprintf("%d path(s) of %s left the modelled fragment: %s", n, e.Func, r))
+		}
+		// solver timeouts that survived the retry: nothing was found there, nothing was shown either
+		for what, n := range res.Inconclusive {
+			fmt.Printf("INCONCLUSIVE undecided: property=%s %s: %d time(s) — %s (reduced coverage, recorded in evidence)\n", prop, e.Func, n, what)
 		}
 		if n := res.ByStatus["deadlock"]; n > 0 {
 			problems = append(problems, fmt.Sprintf("%d path(s) of %s deadlocked the harness thread", n, e.Func))
@@ -547,7 +555,9 @@ func checkMain(args []string) int {
 	for _, r := range runs {
 		evs = append(evs, buildEvRun(prop, r.spec, r.params, r.res))
 	}
-	writeEvidenceFile(spec, tier, seed, evs, validated, violations, knownHits, unreplayable, problems, loadT, time.Since(t0))
+	if os.Getenv("VERIF_ONLY") == "" {
+		writeEvidenceFile(spec, tier, seed, evs, validated, violations, knownHits, unreplayable, problems, loadT, time.Since(t0))
+	}
 
 	for _, p := range problems {
 		fmt.Println("PROBLEM:", p)
